@@ -50,9 +50,15 @@ def install_walker_env(ctx, eng, nsources=1):
     def s_next_back(eng, st, callee, args, dty):
         comp = deref_ref(eng, st, args[0])
         of = comp.attrs["of"]
-        has = z3.Bool("source_has_a_component_%d" % next(eng.fresh_ids))
-        return [Outcome(AggV("Option", 1, [OpaqueV("Component", None, {"expr": ("last", of)})], "Some"), [has]),
-                Outcome(AggV("Option", 0, [], "None"), [z3.Not(has)], events=[Event("source-without-components", [], None)])]
+        # how the source is spelled decides its last component: a name (`a/b`, `a/b/`, `a/b/.`), `..` (`a/..`), `/`, `.` (only "."),
+        # or nothing at all (the empty path)
+        kind = last_kind(of)
+        names = ["Prefix", "RootDir", "CurDir", "ParentDir", "Normal"]
+        outs = [Outcome(AggV("Option", 1, [AggV("Component", 4, [OpaqueV("OsStr", None, {"expr": ("last", of)})], "Normal")], "Some"), [kind == 4])]
+        for k in (1, 2, 3):
+            outs.append(Outcome(AggV("Option", 1, [AggV("Component", k, [], names[k])], "Some"), [kind == k], events=[Event("source-ends-in", [names[k]], None)]))
+        outs.append(Outcome(AggV("Option", 0, [], "None"), [kind == 0], events=[Event("source-without-components", [], None)]))
+        return outs
     S(r"^<Components<'_> as DoubleEndedIterator>::next_back$", s_next_back)
 
     def s_ok_or(eng, st, callee, args, dty):
@@ -65,7 +71,10 @@ def install_walker_env(ctx, eng, nsources=1):
     def s_join(eng, st, callee, args, dty):
         a = pexpr(eng, st, args[0])
         b = args[1]
-        be = b.attrs["expr"] if isinstance(b, OpaqueV) and "expr" in b.attrs else pexpr(eng, st, b)
+        if isinstance(b, AggV) and b.ty == "Component":
+            be = b.fields[0].attrs["expr"] if b.vname == "Normal" else ("special", b.vname)
+        else:
+            be = b.attrs["expr"] if isinstance(b, OpaqueV) and "expr" in b.attrs else pexpr(eng, st, b)
         return Outcome(P(("join", a, be)))
     S(r"^(std::path::)?Path::join::<", s_join)
     S(r"^(std::path::)?Path::to_path_buf$", lambda e, st, c, a, d: Outcome(P(pexpr(e, st, a[0]))))
@@ -99,8 +108,11 @@ def install_walker_env(ctx, eng, nsources=1):
 
     def s_gi_add(eng, st, callee, args, dty):
         b = deref_ref(eng, st, args[0])
-        b.attrs["files"].append(pexpr(eng, st, args[1]))
-        return Outcome(AggV("Option", 0, [], "None"), events=[Event("gi.add", [pexpr(eng, st, args[1])], None)])
+        f = pexpr(eng, st, args[1])
+        b.attrs["files"] = list(b.attrs["files"]) + [f]
+        # add() reads the file: it returns the (partial) error when the file cannot be read or a line cannot be parsed
+        return [Outcome(AggV("Option", 0, [], "None"), events=[Event("gi.add", [f], None)]),
+                Outcome(AggV("Option", 1, [OpaqueV("ignore::Error")], "Some"), events=[Event("gi.add", [f], "err")])]
     S(r"^GitignoreBuilder::add::<", s_gi_add)
 
     def s_gi_build(eng, st, callee, args, dty):
@@ -180,6 +192,16 @@ def install_walker_env(ctx, eng, nsources=1):
             cands = [("root", root)]
         elif n == 1 and st.ghost.get("root_kind") == "Dir" and not first_of_two:
             cands = [("desc", ("join", root, ("rel",))), None]
+        elif n == 1 and st.ghost.get("root_kind") == "Symlink" and not first_of_two:
+            # walkdir follows a symbolic link given as the *root* unless told otherwise (follow_root_links defaults to true),
+            # even when follow_links is off: the link is yielded as an entry and, if it leads to a directory, so is what is beneath
+            frl = it.attrs.get("follow_root_links")
+            frl_t = frl.t if isinstance(frl, BoolV) else z3.BoolVal(True)
+            sat, _ = eng.check(st.pc + [frl_t])
+            if sat:
+                cands = [("desc", ("join", root, ("rel",)), frl_t), None]
+            else:
+                return Outcome(none, events=[Event("walk-end", [], None)])
         else:
             return Outcome(none, events=[Event("walk-end", [], None)])
         out = []
@@ -195,7 +217,10 @@ def install_walker_env(ctx, eng, nsources=1):
                 s2.trace.append(Event("walk-end", [], None))
                 out.append((s2, none, []))
                 continue
-            which, pe = cnd
+            which, pe = cnd[:2]
+            if len(cnd) > 2:
+                s2.pc.append(cnd[2])
+                s2.ghost["under_root_link"] = True
             # a failing readdir/stat inside the walk surfaces as Some(Err(..))
             s3 = s2.clone()
             s3.trace.append(Event("walk-entry", [which, pe], "err"))
@@ -359,11 +384,17 @@ def _find_pred(eng, st):
     raise EngineAbort("filter closure not found")
 
 
+def last_kind(src_expr):
+    """index (std::path::Component order; 0 = none) of the source spelling's last component"""
+    return z3.Int("last_component_of_%s" % re.sub(r"\W+", "_", repr(src_expr)))
+
+
 def expected_target(eng, p, src_expr, rel_expr, cv, fsm):
-    """cp's mapping rule as a list of (condition, expected target expr)"""
+    """cp's mapping rule as a list of (condition, expected target expr): a source whose spelling ends in a name goes to
+    dest/name when dest is a directory; one that ends in `..`, `/` or is `.` has no name to append and goes into dest itself"""
     ex = fs_fact("exists", repr(("dest",)))
     isd = fs_fact("is_dir", repr(("dest",)))
-    into = z3.And(ex, isd, z3.Not(cv["no_target_directory"].t))
+    into = z3.And(ex, isd, z3.Not(cv["no_target_directory"].t), last_kind(src_expr) == 4)
     b_in = ("join", ("dest",), ("last", src_expr))
     b_self = ("dest",)
     t_in = b_in if rel_expr == ("empty",) else ("join", b_in, rel_expr)
@@ -437,6 +468,11 @@ def _walker(ctx, src_exprs):
             ctx.lemma(eng, "C17: the ignore machinery is only consulted with --gitignore", p.pc, git)
         elif segs:
             ctx.lemma(eng, "C17: with --gitignore every walked entry is put to the matcher", p.pc, z3.Not(git))
+        # C02/C08: a source that is itself a symbolic link is one entry (the link); walking what it leads to would create
+        # entries beneath a link in the destination, i.e. write through it to somewhere no source maps onto
+        if p.ghost.get("under_root_link"):
+            ctx.lemma(eng, "C02/C08: without --dereference nothing beneath a source that is itself a symbolic link is walked (the link is the entry to copy)",
+                      p.pc, cv["dereference"].t, key="walker:root-symlink-followed")
         # C07/C14: GitignoreBuilder::add opens and reads the file: a FIFO (or device) of that name must not be opened
         for e in [x for x in ev if x.name == "gi.add"]:
             ctx.lemma(eng, "C07/C14: the ignore file is opened only if it is a regular file (a FIFO named .gitignore would block the walk for ever)",
@@ -457,11 +493,17 @@ def _walker(ctx, src_exprs):
                 e = m[0]
                 if e.args[0] != seg["expr"] or e.args[2] != seg["src"]:
                     ctx.fail("C17: the matcher is asked about the walked entry's own path", repr(e.args))
-                isd = [x for x in seg["ev"] if x.name == "Path::is_dir" and x.args[0] == seg["expr"]]
-                if not isd or not isinstance(e.args[1], BoolV):
+                if not isinstance(e.args[1], BoolV):
                     ctx.fail("C17: the matcher is told whether the entry is a directory", repr(e.args))
                 else:
-                    ctx.lemma(eng, "C17: the matcher is told whether the entry is a directory", p.pc, e.args[1].t == isd[0].ret.t)
+                    # git's notion: the entry itself is a directory (a symbolic link to one is not), unless links are followed
+                    pe = repr(seg["expr"])
+                    want = z3.If(cv["dereference"].t, fs_fact("is_dir", pe), fs_fact("lstat_is_dir", pe))
+                    ctx.lemma(eng, "C17: the matcher is told whether the entry is a directory (the entry itself: a link to a directory is not one, unless links are followed)",
+                              p.pc, e.args[1].t == want, key="walker:gitignore-isdir-follows-links")
+                if seg["which"] == "root" and seg.get("filtered"):
+                    ctx.fail("C17: the source root itself is never filtered out (git never ignores the work tree's root; `*` with `!a` would skip the whole copy)",
+                             str(names[-6:]), key="walker:gitignore-root-filtered")
                 if seg.get("filtered"):
                     ctx.lemma(eng, "C17: an entry is skipped only when the matcher says 'ignore'", p.pc, e.ret.t)
                     if [x for x in seg["ev"] if x.name in ("op", "create_dir_all", "send")]:
